@@ -93,5 +93,13 @@ let dispatch (t : Stdlib.String.t array) : Stdlib.String.t =
       let cs = nat_of_int cs O in
       let bs = parse_nalus cs (read_file cs (bytes_of_hex t.(2))) in
       "ok " ^ (if bs = [] then "-" else Stdlib.String.concat "|" (Stdlib.List.map (fun b -> if b = [] then "-" else Stdlib.String.concat "," (Stdlib.List.map (fun d -> if d = [] then "." else hex_of_bytes d) b)) bs))
+  | "splits" ->
+      (* the chunked reader on piped stdin delivered in the given fragments *)
+      let cs = int_of_string t.(1) in
+      let rec nat_of_int i acc = if i = 0 then acc else nat_of_int (i - 1) (S acc) in
+      let cs = nat_of_int cs O in
+      let frags = if t.(2) = "-" then [] else Stdlib.List.map (fun x -> if x = "." then [] else bytes_of_hex x) (Stdlib.String.split_on_char ',' t.(2)) in
+      let bs = parse_nalus cs (read_stdin cs frags) in
+      "ok " ^ (if bs = [] then "-" else Stdlib.String.concat "|" (Stdlib.List.map (fun b -> if b = [] then "-" else Stdlib.String.concat "," (Stdlib.List.map (fun d -> if d = [] then "." else hex_of_bytes d) b)) bs))
   | _ -> failwith ("unknown op " ^ t.(0))
 
